@@ -220,7 +220,12 @@ func (self *FieldMask) marshalRec(buf *[]byte) error {
 		}
 		sort.Stable(fds)
 		for _, v := range fds {
-			cont, err := writer(json.RawMessage(strconv.Quote(v.id)), v.fm)
+			// NOTICE: strconv.Quote() writes Go escapes (\a, \x00...) which aren't JSON
+			path, err := json.Marshal(v.id)
+			if err != nil {
+				return err
+			}
+			cont, err := writer(json.RawMessage(path), v.fm)
 			if err != nil {
 				return err
 			}
